@@ -280,3 +280,59 @@ fn nf_mprime_format() {
     mprime_for!(ml_dsa_65, "ml_dsa_65");
     mprime_for!(ml_dsa_87, "ml_dsa_87");
 }
+
+// C18 / C13 / C02: regression vector for finding F1 (an adversarial response vector whose A-hat o NTT(z) row sums past i32::MAX inside the
+// inverse NTT unless its input is reduced at copy-in): verify must return false, not panic, in a build with overflow checks.
+// The vector file is generated from /verif/findings/F1/f1_vector.json by vp_lib/native.py.
+#[path = "verif_native_f1.rs"]
+mod f1;
+fn unhex(s: &str) -> Vec<u8> {
+    let b: Vec<u8> = s.bytes().filter(|c| c.is_ascii_hexdigit()).collect();
+    b.chunks(2).map(|p| { let h = |c: u8| if c <= b'9' { c - b'0' } else { (c | 0x20) - b'a' + 10 }; (h(p[0]) << 4) | h(p[1]) }).collect()
+}
+#[test]
+fn nf_f1_vector() {
+    use crate::traits::{SerDes, Verifier};
+    let pk: [u8; crate::ml_dsa_87::PK_LEN] = unhex(f1::PK_HEX).try_into().expect("pk length");
+    let sig: [u8; crate::ml_dsa_87::SIG_LEN] = unhex(f1::SIG_HEX).try_into().expect("sig length");
+    let msg = unhex(f1::MSG_HEX);
+    let pk = crate::ml_dsa_87::PublicKey::try_from_bytes(pk).expect("every public-key byte string is accepted");
+    let r = std::panic::catch_unwind(|| pk.verify(&msg, &sig, &[]));
+    assert!(r.is_ok(), "verify panicked on the F1 vector (arithmetic overflow in the transform pipeline)");
+    assert!(!r.unwrap(), "verify accepted the F1 vector");
+}
+
+// C09: every accepted private-key byte string serialises back to identical bytes - also keys that key generation would never produce
+// (arbitrary t0 fields, every s1/s2 coefficient at an extreme of [-eta, eta])
+macro_rules! sk_rt_for {
+    ($m:ident, $t:expr, $eta:expr, $k:expr, $l:expr) => {{
+        use crate::$m as M;
+        use crate::traits::{KeyGen, SerDes};
+        let (_pk, sk) = M::KG::keygen_from_seed(&[41u8; 32]);
+        let base = sk.into_bytes();
+        let c = bitlen(2 * $eta);
+        let s_len = ($l + $k) * 32 * c;
+        let mut cases: Vec<[u8; M::SK_LEN]> = Vec::new();
+        cases.push(base);
+        let mut a = base; for b in a[128 + s_len..].iter_mut() { *b = 0xA5; }          // arbitrary t0
+        cases.push(a);
+        let mut z = base; for b in z[128 + s_len..].iter_mut() { *b = 0x00; }          // t0 = 2^12 everywhere
+        cases.push(z);
+        let mut e0 = base; for j in 0..($l + $k) * 256 { set_field(&mut e0[128..128 + s_len], c, j, 0); }             // every s coefficient = +eta
+        cases.push(e0);
+        let mut e1 = base; for j in 0..($l + $k) * 256 { set_field(&mut e1[128..128 + s_len], c, j, 2 * $eta); }      // every s coefficient = -eta
+        cases.push(e1);
+        for (ci, cs) in cases.iter().enumerate() {
+            let k = M::PrivateKey::try_from_bytes(*cs);
+            assert!(k.is_ok(), "in-range private-key byte string #{} rejected ({})", ci, $t);
+            let back = k.unwrap().into_bytes();
+            assert!(back == *cs, "accepted private-key byte string #{} does not serialise back to itself ({})", ci, $t);
+        }
+    }};
+}
+#[test]
+fn nf_sk_total() {
+    sk_rt_for!(ml_dsa_44, "ml_dsa_44", 2, 4usize, 4usize);
+    sk_rt_for!(ml_dsa_65, "ml_dsa_65", 4, 6usize, 5usize);
+    sk_rt_for!(ml_dsa_87, "ml_dsa_87", 2, 8usize, 7usize);
+}
